@@ -481,3 +481,39 @@ Fixpoint csteps5 (c : c5) (t : trace) : option c5 :=
 
 Definition check_c05 (t : trace) : bool :=
   match csteps5 c5_init t with Some _ => true | None => false end.
+
+(* ====================================================================================== *)
+(* Part 4.  C14 (registrations): what a refused allocation inside a register call must     *)
+(* look like to the client.  The driver's programs retry the same call immediately.        *)
+(* ====================================================================================== *)
+
+(* every registration that failed with ENOMEM is followed at once by the successful retry of
+   the same registration (for a timer the retry first reads the clock) *)
+Fixpoint check_retry (t : trace) : bool :=
+  match t with
+  | [] => true
+  | ERegFailImm p ENOMEM :: t' =>
+    match t' with
+    | ERegister _ (KImm p') :: _ => Nat.eqb p p' && check_retry t'
+    | _ => false
+    end
+  | ERegFailNet fd op ENOMEM :: t' =>
+    match t' with
+    | ERegister _ (KNet fd' d') :: _ =>
+      Z.eqb fd (Z.of_nat fd') && match op_dir op with Some d => Bool.eqb d d' | None => false end &&
+      check_retry t'
+    | _ => false
+    end
+  | ERegFailTimer tm ENOMEM :: t' =>
+    match t' with
+    | EClock _ :: ERegister _ (KTimer tm') :: _ =>
+      N.eqb (fst tm) (fst tm') && N.eqb (snd tm) (snd tm') && check_retry t'
+    | _ => false
+    end
+  | _ :: t' => check_retry t'
+  end.
+
+(* the C14 reading for event registrations: failure reported, the failed registration is never
+   invoked and leaves nothing registered (check_c04: no bogus invocation, no EEXIST without a
+   live registration), and the same registration can be made again *)
+Definition check_c14_events (t : trace) : bool := check_c04 t && check_retry t.
